@@ -169,6 +169,11 @@ func (x *Exec) eval(fc *frameCtx, st, old *State, e *CExpr, b binds) TV {
 			if strings.HasPrefix(bv.sort, "(Array") {
 				return TV{mkApp("select", elemSort(bv.sort), bv, idx), nil}
 			}
+			if base.T != nil {
+				if mt, ok := base.T.Underlying().(*types.Map); ok {
+					return TV{x.mapValue(st, base.T, bv, idx), mt.Elem()}
+				}
+			}
 			if bt, ok := base.T.Underlying().(*types.Basic); ok && bt.Info()&types.IsString != 0 {
 				return TV{x.strByte(bv, idx), types.Typ[types.Uint8]}
 			}
@@ -369,6 +374,9 @@ func (x *Exec) evalCall(fc *frameCtx, st, old *State, e *CExpr, b binds) TV {
 	case "typeis":
 		iv := arg(0).V.(IfaceV)
 		name := e.Args[1].SVal
+		if t := x.W.namedPtr(name); t != nil {
+			return TV{tEq(iv.Tag, mkInt(int64(x.W.typeID(t)))), tBoolT}
+		}
 		for k, id := range x.W.typeIDs {
 			if k == name || strings.HasSuffix(k, "/"+name) {
 				return TV{tEq(iv.Tag, mkInt(int64(id))), tBoolT}
@@ -391,6 +399,37 @@ func (x *Exec) evalCall(fc *frameCtx, st, old *State, e *CExpr, b binds) TV {
 		pt := positionPtrType(x.W)
 		v := mkApp("select", SInt, h, iv.Ref)
 		return TV{v, pt}
+	case "has":
+		m := arg(0)
+		if m.T == nil {
+			oos("has(): not a map")
+		}
+		if _, ok := m.T.Underlying().(*types.Map); !ok {
+			oos("has(): not a map")
+		}
+		return TV{x.mapHas(st, m.T, m.V.(*Term), x.mapKeyTerm(arg(1).V)), tBoolT}
+	case "bstr":
+		// the string made of the bytes of a slice (what string(b) yields)
+		sv, ok := arg(0).V.(SliceV)
+		if !ok {
+			oos("bstr() of a non-slice")
+		}
+		x.Sc.DeclareFun("str.ofbytes", []string{SArrII, SInt, SInt}, SInt)
+		h := x.heapGet(st, elemKey(types.Typ[types.Uint8]), SArr2I)
+		return TV{mkApp("str.ofbytes", SInt, mkApp("select", SArrII, h, sv.Arr), sv.Off, sv.Len), types.Typ[types.String]}
+	case "cat":
+		x.Sc.DeclareFun("str.cat", []string{SInt, SInt}, SInt)
+		return TV{mkApp("str.cat", SInt, arg(0).V.(*Term), arg(1).V.(*Term)), types.Typ[types.String]}
+	case "as":
+		// view an interface value as a pointer to the named struct type (use under typeis)
+		iv, ok := arg(0).V.(IfaceV)
+		if !ok {
+			oos("as() of a non-interface value")
+		}
+		if t := x.W.namedPtr(e.Args[1].SVal); t != nil {
+			return TV{iv.Ref, t}
+		}
+		oos("as: unknown type %s", e.Args[1].SVal)
 	case "aserror":
 		// view an integer reference (e.g. cbarg()) as *errors.Error
 		pkg := x.W.PkgByPath[modPath+"/pkg/errors"]
